@@ -122,7 +122,9 @@ pub fn num_to_json(n: &Num) -> J {
 }
 
 pub fn float_to_json(f: f64) -> J {
-    if f.is_nan() {
+    if f == 0.0 && f.is_sign_negative() {
+        json!({"t": "nz"})
+    } else if f.is_nan() {
         json!({"t": "fsp", "k": "nan"})
     } else if f == f64::INFINITY {
         json!({"t": "fsp", "k": "inf"})
@@ -146,7 +148,8 @@ fn big_from_digits(neg: bool, d: &[i64]) -> Val {
     for x in d {
         s.push((b'0' + *x as u8) as char);
     }
-    Val::Num(Num::from_str_radix(&s, 10).expect("digits"))
+    // the "big" tag asks for the big-integer representation, also for values that fit a machine integer
+    Val::Num(Num::big_int(s.parse::<num_bigint::BigInt>().expect("digits")))
 }
 
 pub fn json_to_val(j: &J) -> Result<Val, String> {
@@ -159,6 +162,7 @@ pub fn json_to_val(j: &J) -> Result<Val, String> {
             let d: Vec<i64> = j["d"].as_array().ok_or("big")?.iter().map(|x| x.as_i64().unwrap()).collect();
             big_from_digits(j["neg"].as_bool().unwrap_or(false), &d)
         }
+        "nz" => Val::Num(Num::Float(-0.0)),
         "flt" => {
             let p = j["p"].as_i64().ok_or("flt")? as f64;
             let q = j["q"].as_i64().ok_or("flt")? as f64;
@@ -204,6 +208,8 @@ pub fn agrees(exp: &J, act: &J) -> bool {
     let ta = act["t"].as_str().unwrap_or("");
     match te {
         "ierr" => ta == "str",
+        "oneof" => exp["alts"].as_array().map_or(false, |a| a.iter().any(|e| agrees(e, act))),
+        "nz" => ta == "nz",
         "arr" => {
             ta == "arr" && {
                 let (a, b) = (exp["a"].as_array().unwrap(), act["a"].as_array().unwrap());
